@@ -69,9 +69,13 @@ structure Cfg where
   mq : Shape
   syncq : SyncShape
   priq : PriShape
+  /-- no method of the six queue types takes its mutex more than once: a critical section is never cut in two by an
+      `Unlock(); Lock()` pair (read from the AST). Every function of this model is ONE critical section of the code;
+      that it executes atomically is exactly this fact (plus `Facts.lockCovered` and the trusted `sync.Mutex`). -/
+  sectionsAtomic : Bool
 deriving DecidableEq, Repr
 
-def Cfg.expected : Cfg := ⟨.expected, .expected, .expected, .expected, .expected, .expected⟩
+def Cfg.expected : Cfg := ⟨.expected, .expected, .expected, .expected, .expected, .expected, true⟩
 
 /-- shape facts the model is written against but does not take as parameters -/
 structure Facts where
@@ -91,9 +95,11 @@ structure Facts where
   closesStopChan : Bool     -- mux/mq `Close`, mq `TryClose` close `stopChan`; mq `TryClear` closes `clearChan`
   lockCovered : Bool        -- AST: every method touching a guarded field locks first and unlocks (deferred / before every return)
   methodSets : Bool         -- the queue types' method sets over ALL files of their packages are exactly the modelled ones
+  fieldsPrivate : Bool      -- sibling files of the packages never select a queue's mutable / synchronisation field
 deriving DecidableEq, Repr
 
-def Facts.expected : Facts := ⟨true, true, true, true, true, true, true, true, true, true, true, true, true, true, true, true⟩
+def Facts.expected : Facts :=
+  ⟨true, true, true, true, true, true, true, true, true, true, true, true, true, true, true, true, true⟩
 
 /-- configurations for which the property theorems are proved -/
 def Proved (c : Cfg) : Prop := c = Cfg.expected
